@@ -1343,7 +1343,11 @@ class HealSparseMap(object):
             dtypeOut = single_map._sparse_map.dtype
 
         # Create an empty HEALPix map, filled with UNSEEN values
-        hp_map = np.full(hpg.nside_to_npixel(nside), hpg.UNSEEN, dtype=dtypeOut)
+        if np.dtype(dtypeOut) == np.bool_:
+            # UNSEEN cannot be represented in a boolean array (it would be True).
+            hp_map = np.full(hpg.nside_to_npixel(nside), single_map._sentinel, dtype=dtypeOut)
+        else:
+            hp_map = np.full(hpg.nside_to_npixel(nside), hpg.UNSEEN, dtype=dtypeOut)
 
         valid_pixels = single_map.valid_pixels
         if not nest:
